@@ -470,6 +470,10 @@ switchpos:
 		case token.GreaterEq:
 			return Bool(bval >= v), nil
 		}
+	case Float:
+		return Float(bval).BinaryOp(tok, v)
+	case Char:
+		return Char(bval).BinaryOp(tok, v)
 	case Bool:
 		if v {
 			right = Int(1)
